@@ -311,6 +311,26 @@ impl<K: Kind> Future for ScriptFut<K> {
         if !enter_child_poll(id, addr, slot, "child") {
             panic!("VERIF_HARD_CAP");
         }
+        let boom = w(|x| {
+            let c = &mut x.children[id as usize];
+            if c.panic_left > 0 && !x.frozen {
+                c.panic_left -= 1;
+                true
+            } else {
+                false
+            }
+        });
+        if boom {
+            // park a waker first, so that the environment can still wake this child afterwards
+            let mode = w(|x| x.children[id as usize].plan.stash.max(1));
+            stash_waker(id, cx.waker(), mode);
+            w(|x| {
+                x.labels |= lb::CHILD_PANIC;
+                x.lenient = true;
+                x.ev(|| format!("    child {id} panics inside its poll"));
+            });
+            panic!("VERIF_CHILD_PANIC");
+        }
         let (phase, mode) = w(|x| {
             let frozen = x.frozen;
             let c = &mut x.children[id as usize];
@@ -400,7 +420,8 @@ fn child_dropped(id: Cid, addr: usize) {
                 x.inflight -= 1;
             }
             let pr = x.discard_props();
-            if x.subject_alive && !x.subject_dropping && pr != 0 {
+            // after a child panicked the owner may legitimately get rid of it
+            if x.subject_alive && !x.subject_dropping && pr != 0 && !x.lenient {
                 x.violate(
                     pr,
                     "Cxx/held-child-discarded",
